@@ -139,3 +139,230 @@ Proof.
 Qed.
 Lemma accepts_complete : forall cs tr s, steps cs init tr s -> accepts cs tr = true.
 Proof. intros cs tr s H; unfold accepts; rewrite (run_complete _ _ _ _ H); reflexivity. Qed.
+
+(* ================= second part: verdict of a check, recorded results, exactly once ================= *)
+
+Lemma run_commands_spec : forall disc te cmds g,
+  run_commands disc te cmds g = (g && (if disc && negb te then true else all_true cmds), cmds).
+Proof.
+  induction cmds as [|ok r IH]; intro g; simpl.
+  - destruct (disc && negb te); rewrite ?andb_true_r; reflexivity.
+  - rewrite IH. unfold all_true in *; simpl. f_equal.
+    destruct ok, disc, te, g; simpl; try reflexivity; destruct (forallb (fun b : bool => b) r); reflexivity.
+Qed.
+
+Lemma run_tests_spec : forall tests g, run_tests tests g = (g && all_true tests, tests).
+Proof.
+  induction tests as [|ok r IH]; intro g; simpl.
+  - rewrite andb_true_r; reflexivity.
+  - rewrite IH. unfold all_true; simpl. f_equal. destruct g, ok; reflexivity.
+Qed.
+
+(* TestLauncher::execute computes the specified verdict, runs and records every command and every test (a failed
+   command stops neither the other commands nor the tests); an unmet requirement: success, nothing run *)
+Lemma launcher_execute_is_spec : forall d, launcher_execute d = check_result d.
+Proof.
+  intro d. unfold launcher_execute, check_result, check_verdict.
+  destruct (req_ok d); [|reflexivity].
+  rewrite run_commands_spec, run_tests_spec. reflexivity.
+Qed.
+
+Lemma verdict_is_conjunction : forall d, req_ok d = true -> discard d = false ->
+  r_verdict (launcher_execute d) = all_true (cmd_ok d) && all_true (test_ok d) /\
+  r_cmds (launcher_execute d) = cmd_ok d /\ r_tests (launcher_execute d) = test_ok d.
+Proof.
+  intros d R D. rewrite launcher_execute_is_spec. unfold check_result, check_verdict. rewrite R, D. simpl. auto.
+Qed.
+
+(* the default of tfel-check (discard_commands_failure = true): the commands only count when the check has no test *)
+Lemma default_verdict : forall d, req_ok d = true -> discard d = true ->
+  r_verdict (launcher_execute d) = (if no_tests d then all_true (cmd_ok d) else all_true (test_ok d)) /\
+  r_cmds (launcher_execute d) = cmd_ok d /\ r_tests (launcher_execute d) = test_ok d.
+Proof.
+  intros d R D. rewrite launcher_execute_is_spec. unfold check_result, check_verdict, no_tests. rewrite R, D. simpl.
+  destruct (test_ok d); simpl; rewrite ?andb_true_r; auto.
+Qed.
+
+Lemma unmet_requirement_is_success : forall d, req_ok d = false ->
+  launcher_execute d = mkRes true [] [] (length (cmd_ok d)).
+Proof. intros d R. unfold launcher_execute. rewrite R. reflexivity. Qed.
+
+(* --- the run with recorded results projects onto a run of the first model --- *)
+Lemma rstep_core : forall cs ds s e s', rstep cs ds s e s' -> step cs (core s) (erase e) (core s').
+Proof.
+  intros cs ds s e s' H. unfold rstep, rstep_fn in H. unfold step.
+  destruct (step_fn cs (core s) (erase e)) as [c'|]; [|discriminate].
+  destruct e as [i|i|i r]; try (inversion H; subst; reflexivity).
+  destruct (result_eq_dec r (launcher_execute (nth i ds default_def))); [|discriminate]. inversion H; subst; reflexivity.
+Qed.
+
+Lemma rsteps_core : forall cs ds s tr s', rsteps cs ds s tr s' -> steps cs (core s) (map erase tr) (core s').
+Proof.
+  induction 1; simpl; [constructor|]. econstructor; [eapply rstep_core; exact H | exact IHrsteps].
+Qed.
+
+Lemma step_finished : forall cs s e s', step_fn cs s e = Some s' ->
+  finished s' = match e with Finish i => i :: finished s | _ => finished s end.
+Proof.
+  intros cs s e s' H. destruct e as [i|i|i]; simpl in H.
+  - destruct (Nat.eqb i (started s) && Nat.ltb i (length cs)); inversion H; reflexivity.
+  - destruct (Nat.ltb i (started s) && negb (mem i (appended s)) && negb (mem i (finished s))); inversion H; reflexivity.
+  - destruct (mem i (appended s) && negb (mem i (finished s))); inversion H; reflexivity.
+Qed.
+
+Definition recorded_of (ds : list cdef) (fin : list nat) : list (nat * result) :=
+  map (fun i => (i, launcher_execute (nth i ds default_def))) (rev fin).
+
+(* what is recorded is, in the order of the returns, the result of each returned check computed from its own definition *)
+Lemma rstep_recorded : forall cs ds s e s', rstep cs ds s e s' ->
+  recorded s = recorded_of ds (finished (core s)) -> recorded s' = recorded_of ds (finished (core s')).
+Proof.
+  intros cs ds s e s' H I. unfold rstep, rstep_fn in H.
+  destruct (step_fn cs (core s) (erase e)) as [c'|] eqn:E; [|discriminate].
+  pose proof (step_finished _ _ _ _ E) as F.
+  destruct e as [i|i|i r]; simpl in F.
+  - inversion H; subst; simpl. rewrite F; exact I.
+  - inversion H; subst; simpl. rewrite F; exact I.
+  - destruct (result_eq_dec r (launcher_execute (nth i ds default_def))) as [Q|]; [|discriminate].
+    inversion H; subst; simpl. rewrite F. unfold recorded_of in *. simpl. rewrite map_app, <- I. reflexivity.
+Qed.
+
+Lemma rsteps_recorded : forall cs ds s tr s', rsteps cs ds s tr s' ->
+  recorded s = recorded_of ds (finished (core s)) -> recorded s' = recorded_of ds (finished (core s')).
+Proof. induction 1; intro I; [exact I|]. apply IHrsteps. eapply rstep_recorded; eauto. Qed.
+
+(* exactly once: when all checks have returned, the checks that were started, those whose block was appended and those
+   that returned are each an enumeration of 0..n-1 (every check started once, appended once, finished once) *)
+Lemma exactly_once : forall cs ds tr s, rsteps cs ds rinit tr s -> length (finished (core s)) = length cs ->
+  started (core s) = length cs /\ Permutation (appended (core s)) (seq 0 (length cs)) /\
+  Permutation (finished (core s)) (seq 0 (length cs)) /\ Permutation (map fst (recorded s)) (seq 0 (length cs)).
+Proof.
+  intros cs ds tr s H L.
+  pose proof (rsteps_core _ _ _ _ _ H) as H0. simpl in H0.
+  destruct (steps_inv _ _ _ _ H0 (inv_init cs)) as [Il In_ Ia Is If Ifn].
+  assert (B : forall i, In i (finished (core s)) -> i < length cs) by (intros i Hi; specialize (Ia i (If i Hi)); lia).
+  pose proof (nodup_bounded_perm _ _ Ifn B L) as P.
+  assert (La : length (appended (core s)) = length cs).
+  { assert (A1 : length (finished (core s)) <= length (appended (core s))) by (apply NoDup_incl_length; [exact Ifn|exact If]).
+    assert (A2 : length (appended (core s)) <= length (seq 0 (length cs))).
+    { apply NoDup_incl_length; [exact In_|]. intros i Hi; apply in_seq; specialize (Ia i Hi); lia. }
+    rewrite seq_length in A2. lia. }
+  assert (PA : Permutation (appended (core s)) (seq 0 (length cs))).
+  { apply nodup_bounded_perm; auto. intros i Hi; specialize (Ia i Hi); lia. }
+  repeat split; auto.
+  - destruct (Nat.eq_dec (length cs) 0) as [Z|NZ]; [lia|].
+    assert (In (length cs - 1) (appended (core s))).
+    { eapply Permutation_in; [apply Permutation_sym, PA|]. apply in_seq; lia. }
+    specialize (Ia _ H1). lia.
+  - rewrite (rsteps_recorded _ _ _ _ _ H eq_refl). unfold recorded_of. rewrite map_map; simpl. rewrite map_id.
+    eapply Permutation_trans; [apply Permutation_sym, Permutation_rev | exact P].
+Qed.
+
+(* whatever the schedule, once all checks have returned the recorded (check, verdict, per-command and per-test results)
+   are, as a multiset, those of the sequential run *)
+Lemma results_schedule_independent : forall cs ds tr s, length cs = length ds ->
+  rsteps cs ds rinit tr s -> length (finished (core s)) = length cs ->
+  Permutation (recorded s) (sequential_results ds).
+Proof.
+  intros cs ds tr s Ld H L.
+  destruct (exactly_once _ _ _ _ H L) as [_ [_ [P _]]].
+  rewrite (rsteps_recorded _ _ _ _ _ H eq_refl). unfold recorded_of, sequential_results. rewrite <- Ld.
+  eapply Permutation_trans.
+  - apply Permutation_map. eapply Permutation_trans; [apply Permutation_sym, Permutation_rev | exact P].
+  - apply Permutation_refl' . apply map_ext. intro i. rewrite launcher_execute_is_spec. reflexivity.
+Qed.
+
+Lemma verdict_of_result : forall d, r_verdict (check_result d) = check_verdict d.
+Proof. intro d. unfold check_result, check_verdict. destruct (req_ok d); reflexivity. Qed.
+
+Lemma map_nth_seq_defs : forall ds : list cdef, map (fun i => nth i ds default_def) (seq 0 (length ds)) = ds.
+Proof. induction ds as [|d r IH]; simpl; [reflexivity|]. f_equal. rewrite <- seq_shift, map_map. exact IH. Qed.
+
+Lemma exit_of_sequential : forall ds, exit_from_recorded (sequential_results ds) = must_fail_defs ds.
+Proof.
+  intro ds. unfold exit_from_recorded, sequential_results, must_fail_defs. rewrite existsb_map. simpl.
+  rewrite <- (map_nth_seq_defs ds) at 2. rewrite existsb_map.
+  induction (seq 0 (length ds)) as [|i r IH]; simpl; [reflexivity|].
+  rewrite IH, verdict_of_result. reflexivity.
+Qed.
+
+(* ... and so is the exit status computed from what the tasks returned *)
+Lemma exit_schedule_independent : forall cs ds tr s, length cs = length ds ->
+  rsteps cs ds rinit tr s -> length (finished (core s)) = length cs ->
+  exit_from_recorded (recorded s) = must_fail_defs ds.
+Proof.
+  intros cs ds tr s Ld H L. rewrite <- exit_of_sequential. unfold exit_from_recorded.
+  apply existsb_perm. eapply results_schedule_independent; eauto.
+Qed.
+
+Lemma rrun_sound : forall cs ds tr s s', rrun cs ds s tr = Some s' -> rsteps cs ds s tr s'.
+Proof.
+  induction tr as [|e r IH]; intros s s' H; simpl in H.
+  - inversion H; constructor.
+  - destruct (rstep_fn cs ds s e) as [s1|] eqn:E; [|discriminate]. econstructor; [exact E | apply IH; exact H].
+Qed.
+Lemma rrun_complete : forall cs ds s tr s', rsteps cs ds s tr s' -> rrun cs ds s tr = Some s'.
+Proof. induction 1; simpl; [reflexivity|]. unfold rstep in H; rewrite H. exact IHrsteps. Qed.
+Lemma raccepts_iff : forall cs ds tr, raccepts cs ds tr = true <-> exists s, rsteps cs ds rinit tr s.
+Proof.
+  intros cs ds tr; unfold raccepts; split.
+  - destruct (rrun cs ds rinit tr) as [s|] eqn:E; [|discriminate]. intros _; exists s; apply rrun_sound; exact E.
+  - intros [s H]. rewrite (rrun_complete _ _ _ _ _ H). reflexivity.
+Qed.
+
+(* ---- the sequential run (-j 1: start, append, return check 0, then check 1, ...) is a run of the model; it records
+   sequential_results: the statement of C52_results_schedule_independent is not vacuous ---- *)
+Definition seq_state (cs : list check) (ds : list cdef) (k : nat) : rstate :=
+  mkR (mk (flat_map (fun i => block (nth i cs default_check)) (seq 0 k)) k (seq 0 k) (rev (seq 0 k)))
+      (map (fun i => (i, launcher_execute (nth i ds default_def))) (seq 0 k)).
+
+Lemma mem_seq_false : forall k, mem k (seq 0 k) = false.
+Proof. intro k. apply mem_false. intro H. apply in_seq in H. lia. Qed.
+Lemma mem_rev_seq_false : forall k, mem k (rev (seq 0 k)) = false.
+Proof. intro k. apply mem_false. intro H. apply in_rev in H. apply in_seq in H. lia. Qed.
+
+Lemma seq_one : forall cs ds k rest, k < length cs ->
+  rrun cs ds (seq_state cs ds k)
+       (RStart k :: RAppend k :: RFinish k (launcher_execute (nth k ds default_def)) :: rest) =
+  rrun cs ds (seq_state cs ds (S k)) rest.
+Proof.
+  intros cs ds k rest Hk.
+  set (L := flat_map (fun i => block (nth i cs default_check)) (seq 0 k)).
+  set (R := map (fun i => (i, launcher_execute (nth i ds default_def))) (seq 0 k)).
+  set (r := launcher_execute (nth k ds default_def)).
+  assert (E1 : rstep_fn cs ds (seq_state cs ds k) (RStart k) = Some (mkR (mk L (S k) (seq 0 k) (rev (seq 0 k))) R)).
+  { unfold rstep_fn, seq_state; simpl. rewrite Nat.eqb_refl. destruct (Nat.ltb_spec k (length cs)); [reflexivity|lia]. }
+  assert (E2 : rstep_fn cs ds (mkR (mk L (S k) (seq 0 k) (rev (seq 0 k))) R) (RAppend k) =
+               Some (mkR (mk (L ++ block (nth k cs default_check)) (S k) (seq 0 k ++ [k]) (rev (seq 0 k))) R)).
+  { unfold rstep_fn; simpl. rewrite mem_seq_false, mem_rev_seq_false.
+    destruct (Nat.ltb_spec k (S k)); [reflexivity|lia]. }
+  assert (E3 : rstep_fn cs ds (mkR (mk (L ++ block (nth k cs default_check)) (S k) (seq 0 k ++ [k]) (rev (seq 0 k))) R) (RFinish k r) =
+               Some (mkR (mk (L ++ block (nth k cs default_check)) (S k) (seq 0 k ++ [k]) (k :: rev (seq 0 k))) (R ++ [(k, r)]))).
+  { unfold rstep_fn; simpl. rewrite mem_rev_seq_false.
+    replace (mem k (seq 0 k ++ [k])) with true by (symmetry; apply mem_In; apply in_or_app; right; left; reflexivity).
+    simpl. destruct (result_eq_dec r (launcher_execute (nth k ds default_def))) as [_|N]; [reflexivity|exfalso; apply N; reflexivity]. }
+  assert (E4 : mkR (mk (L ++ block (nth k cs default_check)) (S k) (seq 0 k ++ [k]) (k :: rev (seq 0 k))) (R ++ [(k, r)]) = seq_state cs ds (S k)).
+  { unfold seq_state. rewrite seq_S. simpl. rewrite flat_map_app, rev_app_distr, map_app. simpl. rewrite app_nil_r. reflexivity. }
+  cbn [rrun]. rewrite E1. cbn [rrun]. rewrite E2. cbn [rrun]. rewrite E3, E4. reflexivity.
+Qed.
+
+Lemma seq_many : forall cs ds m k, k + m <= length cs ->
+  rrun cs ds (seq_state cs ds k)
+       (flat_map (fun i => [RStart i; RAppend i; RFinish i (launcher_execute (nth i ds default_def))]) (seq k m)) =
+  Some (seq_state cs ds (k + m)).
+Proof.
+  induction m as [|m IH]; intros k H.
+  - simpl. rewrite Nat.add_0_r. reflexivity.
+  - cbn [seq flat_map app]. rewrite seq_one by lia. rewrite IH by lia. f_equal. f_equal. lia.
+Qed.
+
+Lemma sequential_run_is_a_run : forall cs ds, length cs = length ds ->
+  exists s, rsteps cs ds rinit (sequential_trace ds) s /\ length (finished (core s)) = length cs /\
+            recorded s = sequential_results ds.
+Proof.
+  intros cs ds L. exists (seq_state cs ds (length ds)). repeat split.
+  - apply rrun_sound. unfold sequential_trace. change rinit with (seq_state cs ds 0).
+    rewrite (seq_many cs ds (length ds) 0) by lia. reflexivity.
+  - simpl. rewrite rev_length, seq_length. lia.
+  - simpl. unfold sequential_results. apply map_ext. intro i. rewrite launcher_execute_is_spec. reflexivity.
+Qed.
